@@ -119,6 +119,7 @@ func (w *monWriter) WriteString(s string) (int, error) {
 // engine-side driver from the recorded pre/post state, token and writes.
 func HarnessLoop_step() {
 	p := symLoopPolicy()
+	verifFreeze()
 	w := &monWriter{p: p}
 	err := p.sanitize(stubReader{}, w)
 	verifNoteBool("returned-error", err != nil)
